@@ -355,7 +355,22 @@ class DocGen(object):
         if self.extended and rng.random() < 0.2:
             n, spec = rng.choice(self.extended)
             return self.macro_call(n, spec, depth)
-        c = rng.randrange(16)
+        c = rng.randrange(19)
+        if c == 16:
+            # line breaks with and without their optional argument, in text and in math
+            return rng.choice(['a \\\\ b', 'a \\\\[2mm] b', '\\begin{tabular}{cc}a&b\\\\ [2mm] c&d\\end{tabular}',
+                               '\\begin{align} A=0 \\\\ [C,D]=0 \\end{align}', '$x \\\\ [y]$', 'p \\\\* [q] r',
+                               '\\begin{equation}u\\\\[1em] v\\end{equation}', 'first line \\\\ second'])
+        if c == 17:
+            # the same macro defined with different signatures, and used
+            return '\\newcommand{\\foo}' + rng.choice(['[2]', '[2][x]', '[1]', '[1][d]', '']) + '{(#1)} ' + \
+                rng.choice(['\\foo{a}{b}', '\\foo[o]{a}', '\\foo x', '\\foo{a}'])
+        if c == 18:
+            return rng.choice(['\\renewcommand\\bar[1]{y} \\bar{z}', '\\providecommand{\\foo}[2]{q} \\foo{a}{b}',
+                               '\\newenvironment{myenv}[1]{b}{e} \\begin{myenv}{x}y\\end{myenv}',
+                               '\\verb+a|b+ \\verb|c+d|', '\\begin{tabular}{l|r}1&2\\end{tabular} \\begin{tabular}{c}3\\end{tabular}',
+                               '\\documentclass[a4paper]{article} \\usepackage[utf8]{inputenc}',
+                               '\\begin{enumerate}[a)]\\item x\\end{enumerate} \\begin{enumerate}\\item[b] y\\end{enumerate}'])
         if c == 0:
             return '\\textbf{' + self.content(d, math) + '}'
         if c == 1:
